@@ -641,8 +641,25 @@ def check_c06(prop, tier, seed, devices):
                                   tag="byte.eeprom-resumed"))
                 cases.append(Case([seg("eeprom"), data(w, E(1)), org(k + 8), data(w, E(2)), byte(n), org(k + 20), byte(n), data(1, S("z"))],
                                   tag="byte.eeprom-org"))
+    # literals that no 64-bit value can hold are errors in every radix and width -- never a wrapped value
+    over = ["0x8000000000000000", "0xFFFFFFFFFFFFFFFF", "$FFFFFFFFFFFF8000", "$ffffffff80000000", "0x10000000000000000", "0xFFFFFFFFFFFFFF80",
+            "9223372036854775808", "18446744073709551615", "18446744073709551616", "99999999999999999999999",
+            "0b1" + "0" * 63, "0b" + "1" * 64, "0b1" + "0" * 64, "01000000000000000000000", "01777777777777777777777", "02000000000000000000000"]
+    for lit_ in over:
+        for w in (1, 2, 4, 8):
+            for segname in ("code", "eeprom"):
+                head = [seg(segname)] if segname != "code" else []
+                for form in ("%s", "1, %s", "-%s", "low(%s)", "%s & 255"):
+                    cases.append(Case(head + [data(1, E(7)), line("garbage", text=DATADIR[w] + " " + form % lit_)], tag="literal-overflow"))
+    # strings are text, whatever they contain: long runs of operator characters, parentheses, quotes of the other kind
+    for text in ("+-*/" * 150, "(" * 600, ")" * 600, "<<>>&&||" * 80, "-" * 1000, "!~" * 300, "a+b" * 250, "'" * 300, "/*" * 200 + "*/", ";" * 700, "," * 600):
+        for segname in ("code", "eeprom"):
+            head = [seg(segname)] if segname != "code" else []
+            cases.append(Case(head + [data(1, S(text)), data(1, E(0x5a))], tag="long-string"))
+            cases.append(Case(head + [data(1, E(1), S(text), E(binop("+", lit(1), lit(2))), S(text[:7]))], tag="long-string"))
     return run_cases(prop, tier, seed, cases, devices, keyf=default_key, extra=[pipeline_extra(sample=1200, seed=seed)],
-                     rule=".db/.dw/.dd/.dq with element lists of length 0..5 over boundary values of each width (both ends, signed and unsigned), "
+                     rule="literals beyond 64 bits in every radix (errors); strings of 600-1000 operator / parenthesis / comment characters; "
+                          ".db/.dw/.dd/.dq with element lists of length 0..5 over boundary values of each width (both ends, signed and unsigned), "
                           ".equ symbols, labels and ten strings (empty, non-ASCII, containing ; , //), in code, eeprom and data segments, "
                           "followed by a second item; .byte n in each segment, in EEPROM blocks after .org and in resumed EEPROM blocks")
 
@@ -1453,6 +1470,11 @@ def line_kind_programs():
     P.append(("instr.rk", [k1, instr("ldi", R(16), E(fn("low", binop("+", sym("k1"), lit(0x112)))))]))
     P.append(("instr.rk2", [k1, instr("subi", R(20), E(binop("&", binop("<<", sym("k1"), lit(1)), lit(0xf0))))]))
     P.append(("instr.neg", [instr("ldi", R(16), E(un("-", lit(3))))]))
+    P.append(("instr.par", [k1, instr("ldi", R(16), E(binop("*", binop("+", sym("k1"), lit(1)), lit(2)))), instr("ldi", R(17), E(par(par(lit(0x21))))),
+                            instr("cpi", R(18), E(fn("high", fn("lwrd", binop("-", lit(0x12345), par(sym("k1")))))))]))
+    P.append(("dir.par", [k1, data(2, E(binop("*", binop("+", lit(1), lit(2)), lit(3))), E(fn("low", lit(0x105)))), line("if", e=par(binop("==", sym("k1"), lit(0x41)))),
+                          data(1, E(un("-", par(lit(2))))), line("endif"), equ("pp", par(binop("<<", lit(1), par(lit(3))))), setv("qq", binop("-", lit(9), binop("-", lit(4), lit(1)))),
+                          data(1, E(sym("pp")), E(sym("qq")))]))
     P.append(("instr.ldd", [instr("ldd", R(4), IX("Y", "disp", lit(17)))]))
     P.append(("instr.std", [instr("std", IX("Z", "disp", binop("+", lit(3), lit(4))), R(5))]))
     P.append(("instr.ld", [instr("ld", R(6), IX("X", "inc")), instr("st", IX("Y", "dec"), R(7)), instr("ld", R(8), IX("Z", "none"))]))
